@@ -247,6 +247,10 @@ impl<'a> Gen<'a> {
                 let v = self.add_var(format!("HW{}", i), VarKind::HwReg(*a), MemClass::Zp, Scope::Global);
                 self.hw.push(v);
             }
+            // a read-only register right at the zero-page / absolute boundary (instruction sizes)
+            let a4 = *self.rng.pick(&[0xffu16, 0x100, 0x101, 0x7f]);
+            let v = self.add_var("HW4".into(), VarKind::HwReg(a4), MemClass::Zp, Scope::Global);
+            self.hw.push(v);
             // receives ordinary reads of the strobe / store targets; never read, never compared
             self.sink = Some(self.add_var("sink".into(), VarKind::Scalar(Ty::U8), MemClass::Zp, Scope::Global));
         }
@@ -1270,10 +1274,58 @@ impl<'a> Gen<'a> {
         (LV::Var(*self.rng.pick(&s)), None)
     }
 
+    /// a test of the variable a statement has just written, right behind it: what the generator
+    /// believes the flags describe after the statement is exactly what such a test relies on
+    fn flag_probe(&mut self, s: Stmt) -> Stmt {
+        let l = match &s {
+            Stmt::Expr(Expr::Assign(l, _)) | Stmt::Expr(Expr::OpAssign(_, l, _)) | Stmt::Expr(Expr::IncDec { lv: l, .. }) => l.clone(),
+            _ => return s,
+        };
+        let wide = match &l {
+            LV::Var(v) if Some(*v) == self.sink => return s, // `sink` is never read
+            LV::Var(v) => match self.p.vars[*v].kind {
+                VarKind::Scalar(t) => {
+                    if t.signed() {
+                        return s;
+                    }
+                    t.bits() == 16
+                }
+                _ => return s,
+            },
+            LV::X | LV::Y => false,
+            _ => return s,
+        };
+        if let Stmt::Expr(e) = &s {
+            if Self::has_call(e) {
+                return s;
+            }
+        }
+        let k = if wide { self.const16() } else { self.const8() };
+        let c = match self.rng.below(4) {
+            0 => Expr::Lv(l.clone()),
+            1 => Expr::Un(UnOp::Not, Box::new(Expr::Lv(l.clone()))),
+            2 => Expr::Bin(BinOp::Eq, Box::new(Expr::Lv(l.clone())), Box::new(k)),
+            _ => Expr::Bin(BinOp::Ne, Box::new(Expr::Lv(l.clone())), Box::new(k)),
+        };
+        let g: Vec<VarId> = self.g8.iter().cloned().filter(|v| !self.is_const(*v) && !self.is_protected(&LV::Var(*v))).collect();
+        if g.is_empty() {
+            return s;
+        }
+        let t = *self.rng.pick(&g);
+        let val = self.rng.below(200) as i32;
+        let then = Stmt::Expr(Expr::Assign(LV::Var(t), Box::new(Expr::Num(val))));
+        let els = if self.rng.chance(1, 2) { Some(Box::new(Stmt::Expr(Expr::Assign(LV::Var(t), Box::new(Expr::Num(val + 1)))))) } else { None };
+        Stmt::Block(vec![s, Stmt::If(c, Box::new(then), els)])
+    }
+
     pub fn stmt(&mut self, nest: usize) -> Stmt {
         let r = self.rng.below(100);
         if nest == 0 || r < 46 {
-            return self.simple_stmt();
+            let s = self.simple_stmt();
+            if self.rng.chance(1, 6) {
+                return self.flag_probe(s);
+            }
+            return s;
         }
         if r < 62 {
             // if / if-else
@@ -1335,7 +1387,7 @@ impl<'a> Gen<'a> {
         let trip = self.rng.range(1, 5) as i32;
         self.fc.protected.push(cnt.clone());
         self.fc.loop_depth += 1;
-        let kind = self.rng.below(8);
+        let kind = self.rng.below(9);
         let cl = Expr::Lv(cnt.clone());
         self.forget_xy();
         // inside the body the counter is < trip
@@ -1394,6 +1446,14 @@ impl<'a> Gen<'a> {
                 } else {
                     Stmt::For(Some(init), Some(cond), Some(down), Box::new(body))
                 }
+            }
+            8 if self.cfg.embedded_side_effects && !Self::mentions_index(&body, &cnt) => {
+                // a post-decrement inside the init clause: for (c = h--; c != 0; c--)
+                let h = self.new_local(Ty::U8, "h");
+                let init = Expr::Assign(cnt.clone(), Box::new(Expr::IncDec { lv: LV::Var(h), post: true, inc: self.rng.chance(1, 2) }));
+                let cond = Expr::Bin(BinOp::Ne, Box::new(cl.clone()), Box::new(Expr::Num(0)));
+                let down = Expr::IncDec { lv: cnt.clone(), post: self.rng.chance(1, 2), inc: false };
+                Stmt::Block(vec![Stmt::Decl(h, Some(Expr::Num(trip))), Stmt::For(Some(init), Some(cond), Some(down), Box::new(body))])
             }
             6 | 7 => {
                 // while / do-while with the increment FIRST in the body: `continue` is safe there
@@ -1672,7 +1732,7 @@ impl<'a> Gen<'a> {
         //   hw[2..]: writes are strobe() / store() only; ordinary assignments read them into
         //            `sink` (what they read is the accumulator of an earlier store: not modelled)
         self.st_reset();
-        let wo = *self.rng.pick(&self.hw[2..].to_vec());
+        let wo = *self.rng.pick(&self.hw[2..4].to_vec());
         match self.rng.below(12) {
             11 => {
                 // register transfers between two markers: load(X) = TXA, store(Y) = TAY, ...
@@ -1704,11 +1764,14 @@ impl<'a> Gen<'a> {
                 // csleep bracketed by two markers so that its cycles can be measured in context
                 let n = *self.rng.pick(&[2, 3, 4, 5, 6, 7, 8, 9, 10]);
                 self.asm_n += 2;
-                Stmt::Block(vec![
-                    Stmt::Asm(format!("NOP ;@I{}", self.asm_n - 1), Some(1)),
-                    Stmt::CSleep(n),
-                    Stmt::Asm(format!("NOP ;@I{}", self.asm_n), Some(1)),
-                ])
+                let mut v = vec![Stmt::Asm(format!("NOP ;@I{}", self.asm_n - 1), Some(1)), Stmt::CSleep(n)];
+                // now and then several delays in a row (adjacent PHA/PLA, NOP runs, DEC pairs)
+                while self.rng.chance(1, 3) && v.len() < 4 {
+                    let m = if self.rng.chance(1, 2) { n } else { *self.rng.pick(&[2, 3, 5, 7, 9]) };
+                    v.push(Stmt::CSleep(m));
+                }
+                v.push(Stmt::Asm(format!("NOP ;@I{}", self.asm_n), Some(1)));
+                Stmt::Block(v)
             }
             5 | 6 => {
                 // ordinary write of hw[0] / hw[1]
@@ -1730,7 +1793,8 @@ impl<'a> Gen<'a> {
             _ => {
                 let l = self.dest8();
                 self.note_write(&l, None);
-                Stmt::Expr(Expr::Assign(l, Box::new(Expr::Lv(LV::Deref(self.hw[1])))))
+                let r = if self.rng.chance(1, 3) { self.hw[4] } else { self.hw[1] };
+                Stmt::Expr(Expr::Assign(l, Box::new(Expr::Lv(LV::Deref(r)))))
             }
         }
     }
@@ -1796,7 +1860,17 @@ impl<'a> Gen<'a> {
             };
             let v = self.new_local(t, "l");
             self.st_reset();
-            let e = if t.bits() == 16 { self.leaf16() } else { self.leaf8() };
+            let e = if t.bits() == 16 {
+                self.leaf16()
+            } else if self.rng.chance(1, 2) {
+                // initialisers are parsed by their own operator table: whole expressions too
+                self.st_top = false;
+                self.st_no_calls = true;
+                self.st_scratch_ok = true;
+                self.expr(W::W8, 2)
+            } else {
+                self.leaf8()
+            };
             body.push(Stmt::Decl(v, Some(e)));
             self.fc.locals.push(v);
         }
@@ -1925,6 +1999,16 @@ pub fn gen_input(p: &Program, tag: &str, index: u64, k: u64) -> State {
     }
     st.x = rng.bbyte() as i64;
     st.y = rng.bbyte() as i64;
+    // what the hardware registers read as until something writes them (drawn last, from a
+    // generator of their own, so that every other value stays what it was)
+    let mut hrng = Rng::for_case(&format!("{}-hw", tag), index.wrapping_mul(31).wrapping_add(k));
+    for (i, v) in p.vars.iter().enumerate() {
+        if let VarKind::HwReg(_) = v.kind {
+            for c in st.vals[i].iter_mut() {
+                *c = hrng.byte() as i64;
+            }
+        }
+    }
     st
 }
 
